@@ -1,13 +1,50 @@
-(** C03 - timing tables equal the submitted timestamps. *)
-From Muxide Require Export Model.Base Model.Boxes Spec.Reader Proofs.TableProofs.
+(** C03 - decode and composition timing in the file equals the submitted timestamps. *)
+From Coq Require Import Sorting.Sorted.
+From Muxide Require Export Model.Base Model.Boxes Model.Writer Model.Api Spec.Reader Spec.Layout
+  Proofs.TableProofs Proofs.TimingProofs.
 Open Scope N_scope.
 
-Theorem C03_stts_runs_are_lossless :
-  forall l : list N, expand_runs (rle N.eqb l) = l.
+(* in every reachable state the duration table is exactly the consecutive decode-time
+   differences, the final sample repeating the preceding interval *)
+Theorem C03_video_durations_are_dts_differences : forall w,
+  WInv w -> durations_of (vsamples w) (w_vlast_delta w) = durations_spec (map s_dts (vsamples w)).
+Proof. exact video_durations_are_dts_differences. Qed.
+Print Assumptions C03_video_durations_are_dts_differences.
+
+Theorem C03_audio_durations_are_pts_differences : forall w,
+  WInv w -> durations_of (asamples w) (w_alast_delta w) = durations_spec (map s_pts (asamples w)).
+Proof. exact audio_durations_are_pts_differences. Qed.
+Print Assumptions C03_audio_durations_are_pts_differences.
+
+Theorem C03_invariant_holds_in_every_reachable_state : forall b script m0 ops,
+  build b script = inl m0 -> WInv (m_writer (fst (run m0 ops))).
+Proof. exact WInv_reachable. Qed.
+Print Assumptions C03_invariant_holds_in_every_reachable_state.
+
+(* no drift, for any number of frames: the first k durations sum to the difference of the
+   absolute (rounded) timestamps *)
+Theorem C03_no_accumulated_drift : forall (dts : list N) (k : nat),
+  StronglySorted (fun a b => a <= b) dts -> (k < length dts)%nat ->
+  sumN (firstn k (durations_spec dts)) = nth k dts 0 - nth 0 dts 0.
+Proof. exact durations_telescope. Qed.
+Print Assumptions C03_no_accumulated_drift.
+
+(* composition offsets: accepted samples always fit, and the stored offset is exactly pts - dts *)
+Theorem C03_composition_offsets_fit_in_every_reachable_state : forall b script m0 ops,
+  build b script = inl m0 -> cts_all_fit (m_writer (fst (run m0 ops))).
+Proof. exact cts_fit_reachable. Qed.
+Print Assumptions C03_composition_offsets_fit_in_every_reachable_state.
+
+Theorem C03_composition_offset_exact : forall s,
+  (-2147483648 <= Z.of_N (s_pts s) - Z.of_N (s_dts s) <= 2147483647)%Z ->
+  cts_of s = (Z.of_N (s_pts s) - Z.of_N (s_dts s))%Z.
+Proof. exact cts_of_exact. Qed.
+Print Assumptions C03_composition_offset_exact.
+
+Theorem C03_stts_runs_are_lossless : forall l : list N, expand_runs (rle N.eqb l) = l.
 Proof. intro l. apply expand_runs_rle. intros x y H. apply N.eqb_eq. exact H. Qed.
 Print Assumptions C03_stts_runs_are_lossless.
 
-Theorem C03_ctts_runs_are_lossless :
-  forall l : list Z, expand_runs (rle Z.eqb l) = l.
+Theorem C03_ctts_runs_are_lossless : forall l : list Z, expand_runs (rle Z.eqb l) = l.
 Proof. intro l. apply expand_runs_rle. intros x y H. apply Z.eqb_eq. exact H. Qed.
 Print Assumptions C03_ctts_runs_are_lossless.
